@@ -220,40 +220,41 @@ type timerEnt struct {
 }
 
 type Sched struct {
-	cfg      Config
-	chooser  Chooser
-	threads  []*Thread
-	cur      *Thread
-	steps    int
-	points   int
-	choices  []Choice
-	hash     uint64
-	now      time.Duration
-	timers   []*timerEnt
-	idle     int
-	ticks    int
-	nchan    int
-	live     int
-	maxLive  int
-	verdict  string
-	msg      string
-	stack    string
-	aborting bool
-	aborter  *Thread
-	finished chan struct{}
-	mainDone bool
-	trace    []string
-	ctxSeq   int
-	tdTok    *tok // race variant: everything every thread did before its last announcement
-	cores    []*core
-	objs     []*uint64 // histories of WaitGroups and Mutexes touched in this execution
-	early    int       // early ticks taken
-	woken    []*Thread // threads whose blocked operation was completed by the operation being performed
-	gwg      sync.WaitGroup // real: every goroutine started for this execution
-	nextID   int
-	nthreads int
-	doneHash uint64 // exited threads' contribution to the state key
-	roles    map[string]int
+	cfg        Config
+	chooser    Chooser
+	threads    []*Thread
+	cur        *Thread
+	steps      int
+	points     int
+	choices    []Choice
+	hash       uint64
+	now        time.Duration
+	timers     []*timerEnt
+	idle       int
+	ticks      int
+	nchan      int
+	live       int
+	maxLive    int
+	verdict    string
+	msg        string
+	stack      string
+	aborting   bool
+	aborter    *Thread
+	finished   chan struct{}
+	mainDone   bool
+	trace      []string
+	ctxSeq     int
+	tdTok      *tok // race variant: everything every thread did before its last announcement
+	cores      []*core
+	objs       []*uint64      // histories of WaitGroups and Mutexes touched in this execution
+	early      int            // early ticks taken
+	woken      []*Thread      // threads whose blocked operation was completed by the operation being performed
+	gwg        sync.WaitGroup // real: every goroutine started for this execution
+	nextID     int
+	nthreads   int
+	doneHash   uint64 // exited threads' contribution to the state key
+	roleNames  []string
+	roleCounts []int
 }
 
 // S is the scheduler of the execution in progress (nil outside Run).
@@ -284,10 +285,10 @@ func Run(cfg Config, ch Chooser, main func()) *Result {
 		Verdict: s.verdict, Msg: s.msg, Stack: s.stack, Steps: s.steps, Points: s.points,
 		Choices: s.choices, Hash: s.hash, IdleTicks: s.idle, Ticks: s.ticks,
 		Threads: s.nthreads, MaxLive: s.maxLive, MainDone: s.mainDone, Trace: s.trace,
-		Roles: s.roles,
+		Roles: map[string]int{},
 	}
-	if res.Roles == nil {
-		res.Roles = map[string]int{}
+	for i, r := range s.roleNames {
+		res.Roles[r] = s.roleCounts[i]
 	}
 	for _, t := range s.threads {
 		if t.state != tsDone && t != s.aborter {
@@ -316,10 +317,19 @@ func (s *Sched) newThread(role string, fn func()) *Thread {
 	t := &Thread{ID: s.nextID, Role: role, wake: make(chan struct{}, 1), done: make(chan struct{}), fn: fn}
 	s.nextID++
 	s.nthreads++
-	if s.roles == nil {
-		s.roles = map[string]int{}
+	// (no map here: map assignment goes through a runtime hook that the race variant's detector sees)
+	found := false
+	for i := range s.roleNames {
+		if s.roleNames[i] == role {
+			s.roleCounts[i]++
+			found = true
+			break
+		}
 	}
-	s.roles[role]++
+	if !found {
+		s.roleNames = append(s.roleNames, role)
+		s.roleCounts = append(s.roleCounts, 1)
+	}
 	t.roleHash = strHash(role)
 	t.hist = t.roleHash
 	t.state = tsReady
